@@ -4,7 +4,7 @@
 // outcome kind (ok / exception / crash) and the returned structure as ndjson.  The verdict
 // is taken by TLC (spec/C19Trace.tla).
 //
-// usage: record_io <mode>     mode: mmfault | binfault | rt | bits
+// usage: record_io <mode>     mode: mmfault | binfault | rt | bits | usedvec
 //   env VERIF_SAN=1 : sanitizer run, only crashing cases and a summary line are printed
 //
 // Every read of a damaged file runs in a forked child (batches; a batch that dies is re-run
@@ -96,6 +96,10 @@ template <class F> Out guarded(F f) {
     if (o.st != "ok") { o.n = o.m = 0; o.ptr.assign(1, 0); o.col.clear(); o.val.clear(); }
     return o;
 }
+// History of the output vectors: 0 = fresh (empty) vectors; k > 0 = vectors that already hold k elements of a
+// previous result (value 5); -1 = the same vectors were used for a full read of the same file just before.
+static int g_prefill = 0;
+template <class T> void prefill(std::vector<T> &v) { if (g_prefill > 0) v.assign((size_t)g_prefill, T(5)); }
 template <class V> void put_vals(Out &o, const std::vector<V> &v, Intern &in) { for (auto &x : v) o.val.push_back(in.id(&x, sizeof(V))); }
 
 template <class Idx, class Val>
@@ -103,6 +107,8 @@ Out read_mm_sparse(const std::string &path, long rb, long re, Intern &in) {
     return guarded([&](Out &o) {
         io::mm_reader rd(path);
         std::vector<Idx> ptr, col; std::vector<Val> val; size_t n, m;
+        prefill(ptr); prefill(col); prefill(val);
+        if (g_prefill < 0) { io::mm_reader r0(path); r0(ptr, col, val); }
         std::tie(n, m) = rd(ptr, col, val, rb, re);
         o.n = sat((ptrdiff_t)n); o.m = sat((ptrdiff_t)m);
         for (auto p : ptr) o.ptr.push_back(sat(p));
@@ -115,6 +121,8 @@ Out read_mm_dense(const std::string &path, long rb, long re, Intern &in) {
     return guarded([&](Out &o) {
         io::mm_reader rd(path);
         std::vector<Val> val; size_t n, m;
+        prefill(val);
+        if (g_prefill < 0) { io::mm_reader r0(path); r0(val); }
         std::tie(n, m) = rd(val, rb, re);
         o.n = sat((ptrdiff_t)n); o.m = sat((ptrdiff_t)m); o.ptr.assign(1, 0);
         put_vals(o, val, in);
@@ -124,6 +132,8 @@ template <class SizeT, class Ptr, class Col, class Val>
 Out read_bin_crs(const std::string &path, long rb, long re, Intern &in) {
     return guarded([&](Out &o) {
         SizeT n; std::vector<Ptr> ptr; std::vector<Col> col; std::vector<Val> val;
+        prefill(ptr); prefill(col); prefill(val);
+        if (g_prefill < 0) io::read_crs(path, n, ptr, col, val);
         io::read_crs(path, n, ptr, col, val, rb, re);
         o.n = sat((ptrdiff_t)ptr.size() - 1); o.m = 0;       // the format has no column count
         for (auto p : ptr) o.ptr.push_back(sat(p));
@@ -135,6 +145,8 @@ template <class SizeT, class Val>
 Out read_bin_dense(const std::string &path, long rb, long re, Intern &in) {
     return guarded([&](Out &o) {
         SizeT n, m; std::vector<Val> val;
+        prefill(val);
+        if (g_prefill < 0) io::read_dense(path, n, m, val);
         io::read_dense(path, n, m, val, rb, re);
         long rows = rb < 0 ? 0 : rb, rowe = re < 0 ? (long)(ptrdiff_t)n : re;
         o.n = sat(rowe - rows); o.m = sat((ptrdiff_t)m); o.ptr.assign(1, 0);
@@ -449,6 +461,11 @@ static std::vector<FileSpec> bin_files() {
     F.push_back(bin_crs_spec<int, ptrdiff_t, int, double>(id++, A3, "real"));
     { std::vector<double> v = {1, 2, 3, 4, 5, 6}; F.push_back(bin_dense_spec<size_t, double>(id++, 3, 2, v, "real")); }
     { std::vector<int> v = {5, -6, 7, 8}; F.push_back(bin_dense_spec<ptrdiff_t, int>(id++, 4, 1, v, "integer")); }
+    // shapes whose other dimension is a multiple of a power of two: a size whose top byte is damaged times the
+    // other size may wrap around modulo 2^64
+    { std::vector<double> v(32); for (int i = 0; i < 32; ++i) v[i] = i - 9; F.push_back(bin_dense_spec<size_t, double>(id++, 8, 4, v, "real")); }
+    { std::vector<int> v(32); for (int i = 0; i < 32; ++i) v[i] = 3 * i - 40; F.push_back(bin_dense_spec<ptrdiff_t, int>(id++, 4, 8, v, "integer")); }
+    { std::vector<float> v(32); for (int i = 0; i < 32; ++i) v[i] = 0.5f * i; F.push_back(bin_dense_spec<size_t, float>(id++, 16, 2, v, "real")); }
     return F;
 }
 
@@ -544,8 +561,9 @@ static std::vector<int> mm_reps(bool th) {
     if (th) return {'0', '1', '9', '-', '+', ' ', '\n', '.', 'e', 'x', '%', 0x00, 0xFF};
     return {'0', '7', '-', ' ', '\n', 'x', 0xFF};
 }
-static std::vector<int> bin_reps(bool th, unsigned char orig) {
+static std::vector<int> bin_reps(bool th, unsigned char orig, bool sizefield = false) {
     std::vector<int> r = {0x00, 0x01, 0x7F, 0x80, 0xFF, orig ^ 0x04};
+    if (sizefield) { for (int b = 0; b < 8; ++b) r.push_back(orig ^ (1 << b)); r.push_back(0x20); r.push_back(0x40); r.push_back(0x60); r.push_back(0xC0); }
     if (th) { r.push_back(orig ^ 0x01); r.push_back(orig ^ 0x40); r.push_back(0x03); r.push_back(0x10); r.push_back(0xFE); }
     return r;
 }
@@ -566,10 +584,32 @@ static void fault_sweep(const std::vector<FileSpec> &files, bool mm) {
         for (long p = 0; p < L; ++p) {
             if (p >= dense_until && (p % stride) != phase) continue;
             unsigned char ob = f.data[p];
-            for (int r : (mm ? mm_reps(th) : bin_reps(th, ob))) if ((unsigned char)r != ob) cases.push_back({(int)fi, Damage{"byte", p, r}});
+            bool sizefield = !mm && p < (f.fmt == "bin-dense" ? 2 * f.S : f.S);
+            std::set<int> seen;
+            for (int r : (mm ? mm_reps(th) : bin_reps(th, ob, sizefield))) if ((unsigned char)r != ob && seen.insert(r & 0xff).second) cases.push_back({(int)fi, Damage{"byte", p, r & 0xff}});
         }
     }
     drive((int)cases.size(), [&](int i, bool iso) { return run_case(files[cases[i].f], cases[i].d, iso); });
+}
+
+// every reader, with and without a row range, reading into vectors that were used before (they hold a smaller /
+// a larger previous result, or the full read of the same file): the result has to be the one of a read into
+// fresh vectors.  One child per case (an out-of-bounds write is a crash).
+static void mode_used_vectors() {
+    std::vector<FileSpec> files = mm_files(); for (auto &f : bin_files()) files.push_back(f);
+    for (auto &f : files) {
+        std::string path = P("case.dat"); spit(path, f.data);
+        for (int hist : {2, 50, -1}) for (auto r : ranges_for(f.n)) {
+            long rb = (r.first == 0 && r.second == f.n) ? -1 : r.first, re = (r.first == 0 && r.second == f.n) ? -1 : r.second;
+            std::string txt = in_child([&]() {
+                Intern in; g_prefill = 0; Out fresh = f.read(path, rb, re, in);
+                g_prefill = hist; Out used = f.read(path, rb, re, in); g_prefill = 0;
+                vr::obj o; o.raw("fresh", fresh.json()).raw("used", used.json()); std::string s = o.done(); return s.substr(1, s.size() - 2);
+            }, [](const std::string &why) { return "\"fresh\":" + crash_json("(not run)") + ",\"used\":" + crash_json(why); });
+            vr::obj o; o.str("k", "usedvec").i("fid", f.id).str("fmt", f.fmt).b("dense", f.fmt == "mm-dense" || f.fmt == "bin-dense").i("hist", hist).i("rb", rb).i("re", re);
+            std::string s = o.done(); vr::emit(s.substr(0, s.size() - 1) + "," + txt + "}"); ++g_cases;
+        }
+    }
 }
 
 // valid files read with the wrong value kind / the wrong container: the reader must throw
@@ -735,6 +775,7 @@ int main(int argc, char **argv) {
     if (mode == "mmfault") { auto F = mm_files(); fault_sweep(F, true); if (!g_san) wrong_kind(F); }
     else if (mode == "binfault") { auto F = bin_files(); fault_sweep(F, false); }
     else if (mode == "rt") mode_rt();
+    else if (mode == "usedvec") mode_used_vectors();
     else if (mode == "bits") mode_bits();
     else { std::cerr << "unknown mode\n"; return 2; }
     vr::obj s; s.str("k", "summary").str("mode", mode).i("cases", g_cases).i("crashed", g_crashed).b("san", g_san); vr::emit(s.done());
